@@ -18,6 +18,8 @@
 #include <ascon/random.h>
 #include <ascon/masking.h>
 #include <ascon/permutation.h>
+#include "masking/ascon-masked-state.h"
+#include "random/ascon-trng.h"
 
 typedef struct { uint8_t key[20], nonce[16], msg[64], ad[16]; uint64_t entropy; } secrets;
 static secrets SA, SB;
@@ -85,6 +87,26 @@ static void mk160_init(void *o) { sysrand_reset(S->entropy); ascon_masked_key_16
 static void mk160_op(void *o, int k) { size_t l; if (k == 0) ascon_masked_key_160_randomize(o); else if (k == 1) ascon80pq_masked_aead_encrypt(sink, &l, S->msg, 21, S->ad, 5, S->nonce, o); else if (k == 2) ascon80pq_masked_aead_decrypt(sink, &l, S->msg, 40, S->ad, 5, S->nonce, o); else ascon_masked_key_160_extract(o, sink); }
 static void mk160_fin(void *o) { ascon_masked_key_160_free(o); }
 
+/* masked permutation states (internal toolkit) and the TRNG state the masked code draws from */
+static ascon_trng_state_t TR;
+#define MST(n) \
+static void ms##n##_init(void *o) { ascon_state_t st; sysrand_reset(S->entropy); ascon_trng_init(&TR); ascon_init(&st); ascon_overwrite_bytes(&st, S->key, 0, 16); ascon_overwrite_bytes(&st, S->msg, 16, 24); ascon_release(&st); \
+    ascon_masked_state_init(o); ascon_x##n##_copy_from_x1(o, &st, &TR); ascon_acquire(&st); ascon_free(&st); } \
+static void ms##n##_op(void *o, int k) { uint64_t pres[4] = {1, 2, 3, 4}; ascon_state_t st; ascon_masked_state_t tmp; \
+    if (k == 0) ascon_x##n##_permute(o, 0, pres); else if (k == 1) ascon_x##n##_randomize(o, &TR); \
+    else if (k == 2) { ascon_x##n##_copy_to_x1(&st, o); ascon_free(&st); } else { ascon_masked_state_init(&tmp); ascon_x##n##_copy_from_x##n(&tmp, o, &TR); ascon_x##n##_permute(&tmp, 6, pres); ascon_x##n##_copy_from_x##n(o, &tmp, &TR); ascon_masked_state_free(&tmp); } } \
+static void ms##n##_fin(void *o) { ascon_masked_state_free(o); ascon_trng_free(&TR); }
+MST(2)
+#if ASCON_MASKED_MAX_SHARES >= 3
+MST(3)
+#endif
+#if ASCON_MASKED_MAX_SHARES >= 4
+MST(4)
+#endif
+static void trng_init(void *o) { sysrand_reset(S->entropy); ascon_trng_init(o); }
+static void trng_op(void *o, int k) { if (k == 0) (void)ascon_trng_generate_64(o); else if (k == 1) (void)ascon_trng_generate_32(o); else if (k == 2) ascon_trng_reseed(o); else ascon_trng_generate(sink, 40); }
+static void trng_fin(void *o) { ascon_trng_free(o); }
+
 #define T(n, ctype, pfx) {n, sizeof(ctype), MAXOPS, pfx##_init, pfx##_op, pfx##_fin}
 static const otype TYPES[] = {
     T("ascon_state_t", ascon_state_t, st), T("ascon128_state_t", ascon128_state_t, inc128), T("ascon128a_state_t", ascon128a_state_t, inc128a), T("ascon80pq_state_t", ascon80pq_state_t, inc80pq),
@@ -94,6 +116,14 @@ static const otype TYPES[] = {
     T("ascon_hkdf_state_t", ascon_hkdf_state_t, hkdf), T("ascon_hkdfa_state_t", ascon_hkdfa_state_t, hkdfa), T("ascon_random_state_t", ascon_random_state_t, rnd),
     T("ascon128a_isap_aead_key_t", ascon128a_isap_aead_key_t, isap128a), T("ascon128_isap_aead_key_t", ascon128_isap_aead_key_t, isap128), T("ascon80pq_isap_aead_key_t", ascon80pq_isap_aead_key_t, isap80pq),
     T("ascon_masked_key_128_t", ascon_masked_key_128_t, mk128), T("ascon_masked_key_160_t", ascon_masked_key_160_t, mk160),
+    T("ascon_masked_state_t(x2)", ascon_masked_state_t, ms2),
+#if ASCON_MASKED_MAX_SHARES >= 3
+    T("ascon_masked_state_t(x3)", ascon_masked_state_t, ms3),
+#endif
+#if ASCON_MASKED_MAX_SHARES >= 4
+    T("ascon_masked_state_t(x4)", ascon_masked_state_t, ms4),
+#endif
+    T("ascon_trng_state_t", ascon_trng_state_t, trng),
 };
 
 static _Alignas(64) uint8_t OBJ[2048];
